@@ -9,7 +9,7 @@ from pypyr.errors import (ContextError,
                           KeyInContextHasNoValueError,
                           KeyNotInContextError)
 from pypyr.formatting import RecursiveFormatter
-from pypyr.moduleloader import _ChainMapPretendDict
+from pypyr.moduleloader import _ChainMapPretendDict, _EvalNamespace
 from pypyr.utils import asserts, types
 
 ContextItemInfo = namedtuple('ContextItemInfo',
@@ -285,17 +285,10 @@ class Context(dict):
 
         """
         if input_string:
-            # names the expression itself binds (assignment expressions) go
-            # to the child's own throw-away map, not into context.
-            try:
-                return eval(input_string,
-                            self._pystring_namespace,
-                            self._pystring_namespace.new_child())
-            finally:
-                # an assignment expression inside a comprehension binds in
-                # globals - i.e straight in the namespace's own dict. Like
-                # the throw-away child map, it must not outlive the eval.
-                self._pystring_namespace.clear_own()
+            # names the expression itself binds (assignment expressions) stay
+            # in the throw-away namespace, they don't go into context.
+            namespace = _EvalNamespace(*self._pystring_namespace.maps)
+            return eval(input_string, namespace, namespace)
         else:
             # Empty input raises cryptic EOF syntax err, this more human
             # friendly
